@@ -4,7 +4,7 @@ import Driver.Stor
     `Hv/Storage/Fault.lean` is fed the results the real syscalls got (`res` lines) and must
     predict the same operations; at the end the file is loaded and compared with the Spec. -/
 namespace Driver.C25
-open Hv.Storage Driver.Stor
+open Hv.BlockStore Driver.BStor
 
 def parseRes (s : String) : Res :=
   if s == "ok" then .ok else if s == "err" then .err
@@ -62,7 +62,7 @@ def step (s0 : DS) (line : String) : DS × String :=
     let out := cCloseF s.cfg s.fc s.mk' ⟨s.cs, s.mdisk, s.rs⟩
     let s1 := pushR s out.ops
     ({ s1 with cs := out.st.cs, rs := [] }, if out.failed then "ok err" else "ok ok")
-  | _ => Driver.Stor.step hooks s0 line
+  | _ => Driver.BStor.step hooks s0 line
 
 def cfgOfArgs (kv : List (String × String)) : Cfg :=
   { r := ⟨boolArg kv "shortHeaderIsEOF", boolArg kv "tornDataIsEOF", false⟩,
